@@ -202,9 +202,8 @@ def StructTag(
             values = {}
 
             for member in cls.members:
-                offset = cls._offsets[member]
-                if stream.tell() < offset:
-                    stream.read(offset - stream.tell())
+                # every member is read at its template offset, whatever the order of the list
+                stream.seek(cls._offsets[member])
                 values[member.name] = member.decode(stream)
 
             for bit_member, (offset, bit) in cls.bits.items():
